@@ -12,6 +12,7 @@ import (
 	"path/filepath"
 	"sort"
 	"strings"
+	"sync"
 	"time"
 )
 
@@ -147,24 +148,72 @@ func (c *Ctx) loadKnown() []knownFinding {
 }
 
 // runModel pipes the cases through ocaml/modelrun.
+// runModel runs the extracted model on every non-skipped case; the cases are
+// split over several modelrun processes.
 func (c *Ctx) runModel(cases []*Case) (map[int]Sexp, error) {
 	bin := filepath.Join(c.Verif, "ocaml", "modelrun")
 	if _, err := os.Stat(bin); err != nil {
 		return nil, fmt.Errorf("model binary missing: %v", err)
 	}
-	var in bytes.Buffer
-	var order []int
-	byID := map[int]*Case{}
+	var todo []*Case
 	for _, cs := range cases {
-		if cs.SkipModel {
-			continue
+		if !cs.SkipModel {
+			todo = append(todo, cs)
 		}
-		byID[cs.ID] = cs
+	}
+	shards := 12
+	if len(todo) < 200 {
+		shards = 1
+	}
+	type shardRes struct {
+		out map[int]Sexp
+		raw map[int]Sexp
+		err error
+	}
+	results := make([]shardRes, shards)
+	var wg sync.WaitGroup
+	for s := 0; s < shards; s++ {
+		s := s
+		wg.Add(1)
+		go func() {
+			defer wg.Done()
+			var part []*Case
+			for i := s; i < len(todo); i += shards {
+				part = append(part, todo[i])
+			}
+			results[s].out, results[s].raw, results[s].err = runModelShard(bin, part)
+		}()
+	}
+	wg.Wait()
+	res := map[int]Sexp{}
+	if c.rawOut == nil {
+		c.rawOut = map[int]Sexp{}
+	}
+	for _, r := range results {
+		if r.err != nil {
+			return nil, r.err
+		}
+		for k, v := range r.out {
+			res[k] = v
+		}
+		for k, v := range r.raw {
+			c.rawOut[k] = v
+		}
+	}
+	return res, nil
+}
+
+func runModelShard(bin string, cases []*Case) (map[int]Sexp, map[int]Sexp, error) {
+	res, raw := map[int]Sexp{}, map[int]Sexp{}
+	if len(cases) == 0 {
+		return res, raw, nil
+	}
+	var in bytes.Buffer
+	for _, cs := range cases {
 		in.WriteString(cs.Entry)
 		in.WriteByte(' ')
 		in.WriteString(cs.Input.String())
 		in.WriteByte('\n')
-		order = append(order, cs.ID)
 	}
 	cmd := exec.Command(bin)
 	cmd.Stdin = &in
@@ -172,34 +221,27 @@ func (c *Ctx) runModel(cases []*Case) (map[int]Sexp, error) {
 	cmd.Stdout = &out
 	cmd.Stderr = os.Stderr
 	if err := cmd.Run(); err != nil {
-		return nil, fmt.Errorf("modelrun: %v", err)
+		return nil, nil, fmt.Errorf("modelrun: %v", err)
 	}
-	res := map[int]Sexp{}
 	sc := bufio.NewScanner(&out)
 	sc.Buffer(make([]byte, 1<<20), 1<<28)
 	i := 0
 	for sc.Scan() {
-		if i >= len(order) {
-			return nil, fmt.Errorf("modelrun printed too many lines")
+		if i >= len(cases) {
+			return nil, nil, fmt.Errorf("modelrun printed too many lines")
 		}
 		s, err := ParseSexp(sc.Text())
 		if err != nil {
-			return nil, fmt.Errorf("modelrun output line %d: %v", i, err)
+			return nil, nil, fmt.Errorf("modelrun output line %d: %v", i, err)
 		}
-		if c.rawOut == nil {
-			c.rawOut = map[int]Sexp{}
-		}
-		c.rawOut[order[i]] = s
-		if cs := byID[order[i]]; cs != nil {
-			s = cs.project(s)
-		}
-		res[order[i]] = s
+		raw[cases[i].ID] = s
+		res[cases[i].ID] = cases[i].project(s)
 		i++
 	}
-	if i != len(order) {
-		return nil, fmt.Errorf("modelrun printed %d lines for %d cases", i, len(order))
+	if i != len(cases) {
+		return nil, nil, fmt.Errorf("modelrun printed %d lines for %d cases", i, len(cases))
 	}
-	return res, nil
+	return res, raw, nil
 }
 
 type replayFile struct {
